@@ -11,6 +11,7 @@ from ..refs import ConvexRef
 
 PROPERTY = "C18"
 ENGINE = "E2"
+TECHNIQUE = "exhaustive enumeration of the finite configuration space (290 entries) plus breadth-first exploration of loader / iteration / cross-family lookup histories"
 RULE = (
     "cases = every entry of every tabulated family (5+13+13+92+16+6) and of the DOI 10.1126/science.1220869 repository (145), "
     "enumerated completely: builds a ConvexPolyhedron through get_shape; iteration yields the names once, in the order of .names, "
